@@ -78,8 +78,9 @@ Init == /\ inited = FALSE /\ split = 1 /\ pl = 0 /\ plBig = <<0, 1>> /\ cH = Non
 \* path loss is set (a K x K path-loss matrix has no meaning for another K).
 NewChannel(s, how) ==
   /\ how \in Acts
-  /\ inited => ((KOf(s) = KOf(split) /\ Len(Splits[s].nte) = Len(Splits[split].nte)) \/ pl = 0)
-  /\ inited => (filt[1] = 0 \/ Splits[s].nr = Splits[filt[2]].nr \/ "Corrupt" \notin Acts)
+  \* (a path loss / post filters may have been set BEFORE the first channel exists: they are dimensioned like split 1)
+  /\ (KOf(s) = KOf(split) /\ Len(Splits[s].nte) = Len(Splits[split].nte)) \/ pl = 0
+  /\ filt[1] = 0 \/ Splits[s].nr = Splits[filt[2]].nr \/ "Corrupt" \notin Acts
   /\ inited' = TRUE /\ split' = s
   /\ cH'    = IF Dev.NewChannelKeepsCache THEN Age(cH) ELSE NoneC
   /\ cBigH' = IF Dev.NewChannelKeepsCache THEN Age(cBigH) ELSE NoneC
@@ -90,9 +91,9 @@ InitFrom(s)  == NewChannel(s, "InitFrom")
 
 \* set_pathloss(matrix | None [, ext_int_pathloss])
 SetPathloss(p) ==
-  /\ "SetPathloss" \in Acts /\ inited
+  /\ "SetPathloss" \in Acts
   /\ pl' = p
-  /\ plBig' = <<p, split>>
+  /\ plBig' = <<p, IF inited THEN split ELSE 0>>       \* 0: expanded while no channel (no antennas) existed
   /\ IF Ext /\ Dev.ExtIntSetPathlossKeepsCache
        THEN UNCHANGED <<cH, cBigH>>
        ELSE cH' = NoneC /\ cBigH' = NoneC
@@ -100,13 +101,13 @@ SetPathloss(p) ==
   /\ UNCHANGED <<inited, split, noise, filt, cBigW, lastNoise>>
 
 SetNoiseVar(n) ==
-  /\ "SetNoiseVar" \in Acts /\ inited
+  /\ "SetNoiseVar" \in Acts
   /\ noise' = n /\ ret' = [op |-> "SetNoiseVar", a |-> <<n>>]
   /\ UNCHANGED <<inited, split, pl, plBig, cH, cBigH, filt, cBigW, lastNoise>>
 
 \* set_post_filter(filters): filter set f built for the current receive antennas (0 = None)
 SetPostFilter(f) ==
-  /\ "SetPostFilter" \in Acts /\ inited
+  /\ "SetPostFilter" \in Acts
   /\ filt' = <<f, split>>
   /\ cBigW' = IF Dev.SetPostFilterKeepsBigW THEN cBigW ELSE <<0, split>>
   /\ ret' = [op |-> "SetPostFilter", a |-> <<f>>]
@@ -152,6 +153,8 @@ GetHk      == \E k \in 1..K : Reader("GetHk", TRUE, FALSE, <<k>>)
 BigHNoExt  == Ext /\ Reader("BigHNoExt", TRUE, FALSE, <<>>)
 HNoExt     == Ext /\ Reader("HNoExt", FALSE, ~Dev.HNoExtViaOverride, <<>>)
 GetHkNoExt == Ext /\ \E k \in 1..K : Reader("GetHkNoExt", TRUE, FALSE, <<k>>)
+\* get_Hk_with_ext_int: bypasses the subclass and slices the base class's big_H
+GetHkWithExt == Ext /\ \E k \in 1..K : Reader("GetHkWithExt", TRUE, FALSE, <<k>>)
 
 \* corrupt_data(data[, ext_int_data]): big_H . x + noise, filtered by big_W^H, split by Nr
 Corrupt(d) ==
@@ -170,7 +173,7 @@ Next ==
   \/ \E n \in {"none", "zero", "pos"} : SetNoiseVar(n)
   \/ \E f \in 0..NFilt : SetPostFilter(f)
   \/ \E kd \in {"initK", "noiseNeg"} : Rejected(kd)
-  \/ ReadH \/ ReadBigH \/ GetHkl \/ GetHk \/ BigHNoExt \/ HNoExt \/ GetHkNoExt
+  \/ ReadH \/ ReadBigH \/ GetHkl \/ GetHk \/ BigHNoExt \/ HNoExt \/ GetHkNoExt \/ GetHkWithExt
   \/ \E d \in 1..NData : Corrupt(d)
 
 Spec == Init /\ [][Next]_vars
